@@ -1,7 +1,7 @@
 (** C06 — explicit notations (:skip, :map, :conv, :literal, $n) are honoured as written. *)
 From Coq Require Import String.
 From Cvg Require Import Base GoTypes Re Unicode Matcher Dump Options Front Builder.
-From Cvg.proofs Require Import BuilderProofs.
+From Cvg.proofs Require Import TypedProofs BuilderProofs.
 Open Scope N_scope.
 
 (** A destination field whose path matches a :skip pattern under the method's
@@ -75,3 +75,17 @@ Print Assumptions C06_literal_honoured.
     assignable as a whole, dst.X = src.X is emitted and X.A is written through
     it: known findings C06-notation-under-enclosing-copy / C06-skip-under-enclosing-copy,
     witnessed by the correspondence runs (DESIGN.md section 7, #17). *)
+
+(** Globally: the entries structToStruct returns are, accessible field by accessible field and in
+    field order, exactly the answers of the precedence chain ([match_field]) for those fields —
+    so the four theorems above hold for every field that gets an entry of its own. (A notation
+    on a nested path is consulted when its enclosing field is copied member by member; when the
+    enclosing field is assigned as a whole it is not: known findings C06-*-under-enclosing-copy.) *)
+Theorem C06_every_field_decided_by_the_precedence_chain :
+  forall d o mpos fuel L R args l ev,
+    struct_to_struct d o mpos (S fuel) L R args = (Ok l, ev) ->
+    exists rs, Forall2 (fun lf r => exists e, match_field d o mpos fuel lf R args = (Ok r, e))
+                 (List.filter (fun f => is_field_accessible d L (obj_name f)) (field_nodes d L)) rs /\
+               l = flat_map opt_list rs.
+Proof. exact struct_to_struct_decided. Qed.
+Print Assumptions C06_every_field_decided_by_the_precedence_chain.
